@@ -131,7 +131,10 @@ def read_bytes(
     content_type: str | None
     if body.startswith(_xml_decl):
         content_type = "text/xml"
-        encoding = read_xml_encoding(body) or default_encoding
+        # A declaration that names no encoding leaves the choice to a
+        # meta element (XHTML) and only then to the default.
+        encoding = read_xml_encoding(body) or \
+            detect_encoding(body, default_encoding)[1]
     else:
         content_type, encoding = detect_encoding(body, default_encoding)
 
